@@ -76,12 +76,23 @@ class Driver:
 
     def write_workflow(self):
         lines = ["from gwf import Workflow", "gwf = Workflow()"]
-        for t in self.order:
+        for k, t in enumerate(self.order):
             prot = sorted(self.w["prot"][t])
+            ins, outs = sorted(self.w["in"][t]), sorted(self.w["out"][t])
+            if self.variant % 3 == 1:
+                # the other documented way of writing a target: create it, then add files to its lists in place
+                lines.append(
+                    "t%d = gwf.target(%r, inputs=%r, outputs=%r%s) << %r"
+                    % (k, self.perm[t], ins[:-1], outs[:-1], ", protect=%r" % prot if prot else "", self.text(t, self.specv[t]))
+                )
+                if ins:
+                    lines.append("t%d.inputs.append(%r)" % (k, ins[-1]))
+                if outs:
+                    lines.append("t%d.outputs.extend([%r])" % (k, outs[-1]))
+                continue
             lines.append(
                 "gwf.target(%r, inputs=%r, outputs=%r%s) << %r"
-                % (self.perm[t], sorted(self.w["in"][t]), sorted(self.w["out"][t]),
-                   ", protect=%r" % prot if prot else "", self.text(t, self.specv[t]))
+                % (self.perm[t], ins, outs, ", protect=%r" % prot if prot else "", self.text(t, self.specv[t]))
             )
         self.sb.write("workflow.py", "\n".join(lines) + "\n")
 
@@ -347,7 +358,8 @@ class Driver:
         faults = []
         sub = self.sub
         if term["act"] == "RunReject":
-            faults = [(cmd, nsub + 1, self.rng.choice(["exit1", "stderr"] if self.backend != "lsf" else ["exit1", "stderr", "garbage"]))]
+            faults = [(cmd, nsub + 1, self.rng.choice({"lsf": ["exit1", "stderr", "garbage"], "slurm": ["exit1", "stderr", "depfail", "depfail"],
+                                                          "slurm_noacct": ["exit1", "stderr", "depfail", "depfail"]}.get(self.backend, ["exit1", "stderr"])))]
         elif term["act"] == "Crash":
             faults = [(cmd, nsub + 1, "killparent")]
             sub = True
